@@ -12,4 +12,8 @@ CHECKS['C02'] = {
   'text': 'Decides the structural content of the estimator: per-call loops run 0..calls with one unconditional accumulator.invoke; invoke calls the integrand once, returns 0 / f*w / 0 and updates sum, sum of squares and the two counters exactly for the classes (zero, finite non-zero, non-finite); accumulate() adds v and v^2; value/variance/error are the documented formulas; result() binds every stored quantity to the parameter of the same role; VEGAS / multi-channel adjustment data are the documented per-bin and per-channel sums. All by def-use summaries and normal-form identity; nothing numerical is claimed.',
   'note': 'clang front end; sympy; user integrand opaque and pure; real arithmetic (Kahan compensation is zero over the reals)',
   'technique': 'static def-use summaries, effect sets per input class, argument-role binding, normal-form identity'}
+CHECKS['C06'] = {
+  'text': 'Abstract interpretation over the IEEE classes {NaN,-inf,Neg,Zero,Pos,+inf}: for all 36 class pairs of (integrand value, point weight) both accumulator::invoke specialisations are decided to accumulate nothing / count non-zero only / return 0 for non-finite products and to leave everything untouched for zero; the 1-d/2-d fills discard NaN and +-inf before any bin or counter; the VEGAS adjustment datum depends only on the sanitised value returned by invoke (zero adds zero); the multi-channel update writes nothing and requests no densities when the sanitised value is zero, whatever the weight. Later-iteration identity follows from these plus C07/C08; overflow of v*v for finite v is outside the premise.',
+  'note': 'clang front end; IEEE classification + real arithmetic for finite operands; user callbacks opaque',
+  'technique': 'static abstract interpretation (float-class domain) over def-use summaries with path conditions'}
 NOT_APPLICABLE = {}
